@@ -294,6 +294,9 @@ impl<'a> Exec<'a> {
         if self.out.executed == before {
             self.out.skipped += 1;
             self.out.skipped_ix.push(ix);
+        } else if self.prop == "C01" || self.prop == "C19" {
+            // every executed op is one evaluation of "returned normally" / "no index assertion fired"
+            self.out.evals += 1;
         }
     }
 
